@@ -225,6 +225,24 @@ PROPS = {
         "shards": {"quick": 4, "thorough": 16},
         "no_panic": ["rpc "],
     },
+    "C09": {
+        "modules": ["Capnp.Props.C09", "Capnp.Gen.Locks"],
+        "gen": False,
+        "locks": True,
+        "confirm": True,
+        "rule": "mixed rpc scripts with transport faults injected at the n-th NewMessage / send / the next RecvMessage, caller cancellations and "
+                "Close (also repeated) at any point: oracles: no operation blocks, the sender lock is free at quiescence (read from the Conn via the "
+                "verif hook), Close returns, the wind-down terminates, no goroutine is left, the transport is closed exactly once with every message "
+                "released, no message is sent twice or after its release (S); the stream transport's write side: every placement of one or two failing "
+                "Writes (short write / failure before the first byte) over a few frames, basic and packed, and random plans: results of each send and "
+                "the shape of what reached the stream (whole / torn frames) compared with the model (M), bytes after a torn frame are a violation.",
+        "trusted": COMMON_TRUSTED + ["lockflow (the skeleton extractor: names it recognises, contracts taken from the doc comments; rpc.go, answer.go, question.go, import.go, export.go)",
+                                     "the lock primitives tryLockSender / lockSender / unlockSender and sync.Mutex",
+                                     "'bounded time' is observed as deadlines of the harness, not proved"],
+        "assumptions": ["goroutine-level interleavings between critical sections are sampled by the stream, not enumerated"],
+        "shards": {"quick": 4, "thorough": 16},
+        "no_panic": ["rpc "],
+    },
     "C12": {
         "modules": ["Capnp.Props.C12"],
         "gen": False,
